@@ -481,8 +481,11 @@ def make_leaf(leaf):
   assert np.array_equal(x32.astype(np.float64), x64)
   arr = x32.reshape(shape)
   if (leaf.get('as_int') and size and np.array_equal(x64, np.rint(x64)) and
-      float(np.abs(x64).max()) < 2 ** 24):
-    # integer-typed parameters / counters: same values, integer dtype
+      float(np.abs(x64).max()) < 2 ** 24 and
+      2.0 * float(np.abs(x64).sum()) < 2 ** 31):
+    # integer-typed parameters / counters: same values, integer dtype -- as
+    # long as no signed sum of the entries (nor of their doubles, for the
+    # homogeneity probe) can leave int32: overflow is not the transform's doing
     arr = arr.astype(np.int32)
   kind = leaf.get('container', 'np')
   if kind == 'jnp':
